@@ -59,3 +59,59 @@ Proof.
   { unfold create_position in Hx. inv_all; reflexivity. }
   subst msgs. destruct (Hfull eq_refl) as [_ Hbal]. intros a d. rewrite Hbal. cbn [leaves_eff]. lia.
 Qed.
+
+(* C11: expanding a farm moves exactly the attached coins from the sender to the farm manager; nothing else *)
+Theorem expand_farm_tx_balances w sender funds p w' :
+  run_tx w sender FM (WFm (FmExpandFarm p)) funds = Ok w' ->
+  forall a d, bal (w_bank w') a d = bal (w_bank w) a d - ind (String.eqb a sender) (camt funds d) + ind (String.eqb a FM) (camt funds d).
+Proof.
+  intros H.
+  destruct (leaf_tx_full _ _ _ _ _ _ H) as (wa & w2 & msgs & Hsa & Hsup & Eh & Hfull).
+  destruct (handle_fm_typed _ _ _ _ _ _ Eh) as (s1 & Hx & ->). cbn [fm_execute] in Hx.
+  apply expand_farm_spec in Hx. destruct Hx as [-> _].
+  destruct (Hfull eq_refl) as [_ Hbal]. intros a d. rewrite Hbal. cbn [leaves_eff]. lia.
+Qed.
+
+(* C11: closing a farm (by its owner or the contract owner) refunds exactly the unclaimed remainder to the farm's owner
+   and to nobody else; if that transfer fails the farm is closed all the same and no balance changes at all *)
+Theorem close_farm_tx_balances w sender funds id w' :
+  run_tx w sender FM (WFm (FmCloseFarm id)) funds = Ok w' ->
+  exists f, sfind f_id id (fm_farms (w_fm w)) = Some f /\ funds = [] /\
+    (f_owner f = sender \/ owner (fm_own (w_fm w)) = Some sender) /\
+    fm_farms (w_fm w') = sremove f_id (f_id f) (fm_farms (w_fm w)) /\
+    let rem := ssub (amount_of (f_asset f)) (f_claimed f) in
+    ((forall a d, bal (w_bank w') a d = bal (w_bank w) a d
+                   - ind (String.eqb a FM) (ind (String.eqb (denom_of (f_asset f)) d) rem)
+                   + ind (String.eqb a (f_owner f)) (ind (String.eqb (denom_of (f_asset f)) d) rem))
+     \/ (forall a d, bal (w_bank w') a d = bal (w_bank w) a d)).
+Proof.
+  intros H. unfold run_tx in H.
+  destruct (process FUEL w sender [plain (MWasm FM (WFm (FmCloseFarm id)) funds)]) as [[wx|ex] flx] eqn:Ep; cbn [fst] in H; [|discriminate].
+  inversion H; subst wx; clear H. unfold FUEL in Ep.
+  destruct (plain_call _ _ _ _ _ _ _ _ Ep) as (wa & fla & w2 & subs2 & fl2 & Eb & Eh & E2).
+  destruct (handle_fm_typed _ _ _ _ _ _ Eh) as (s1 & Hx & ->). cbn [fm_execute] in Hx.
+  apply close_farm_spec in Hx. destruct Hx as (Hf & f & Hfind & Hauth & Hs1 & Hm). subst funds.
+  inversion Eb; subst wa fla; clear Eb.
+  exists f. split; [exact Hfind|]. split; [reflexivity|]. split; [exact Hauth|].
+  cbv zeta in Hm.
+  destruct (0 <? ssub (amount_of (f_asset f)) (f_claimed f)) eqn:Er; subst subs2.
+  - (* one refund, its failure tolerated *)
+    rewrite process_cons in E2. unfold exec_sub in E2. cbn [sm_msg sm_reply sm_id wants_success wants_error] in E2.
+    destruct (exec_leaf (set_fm w s1) FM (MBankSend (f_owner f) [(denom_of (f_asset f), ssub (amount_of (f_asset f)) (f_claimed f))])) as [[w3|e3] fl3] eqn:El.
+    + rewrite process_nil in E2. inversion E2; subst w3.
+      pose proof (exec_leaf_same (set_fm w s1) FM (MBankSend (f_owner f) [(denom_of (f_asset f), ssub (amount_of (f_asset f)) (f_claimed f))]) _ _ eq_refl El) as (_ & _ & _ & _ & _ & _ & Hfm').
+      split; [rewrite Hfm'; cbn [w_fm set_fm]; rewrite Hs1; reflexivity|].
+      left. intros a d. rewrite (exec_leaf_bal (set_fm w s1) FM (MBankSend (f_owner f) [(denom_of (f_asset f), ssub (amount_of (f_asset f)) (f_claimed f))]) _ _ a d eq_refl El). cbn [w_bank set_fm leaf_eff camt denom_of amount_of fst snd].
+      unfold ind. destruct (String.eqb a FM), (String.eqb a (f_owner f)), (String.eqb (denom_of (f_asset f)) d); lia.
+    + cbv zeta in E2.
+      destruct (handle_reply (set_fault (set_fm w s1) fl3) FM CLOSE_FARMS_ERR_REPLY_CODE) as [[w4 rsubs]|er] eqn:Er4; [|discriminate].
+      unfold handle_reply in Er4. cbn [String.eqb EM FC PM FM Ascii.eqb Bool.eqb] in Er4.
+      apply bind_ok in Er4. destruct Er4 as [[s4 subs4] [Hr4 Er4]]. apply AtomicProofs.fm_reply_spec in Hr4. destruct Hr4 as (-> & -> & _).
+      inversion Er4; subst w4 rsubs; clear Er4.
+      rewrite process_nil in E2. rewrite process_nil in E2. inversion E2; subst w'.
+      split; [cbn [w_fm set_fm set_fault]; rewrite Hs1; reflexivity|].
+      right. intros a d. reflexivity.
+  - rewrite process_nil in E2. inversion E2; subst w'.
+    split; [cbn [w_fm set_fm]; rewrite Hs1; reflexivity|].
+    right. intros a d. reflexivity.
+Qed.
